@@ -447,6 +447,36 @@ fn binary(r: &Rope<'static>, m: &str, who: &str, obs: &mut Obs) {
       others.push(t);
     }
   }
+  // same byte length, different character structure: a piece border of one
+  // operand falls inside a multi-byte character of the other
+  let cs: Vec<(usize, char)> = m.char_indices().collect();
+  for (k, (i, ch)) in cs.iter().enumerate().take(12) {
+    let w = ch.len_utf8();
+    let mut variants: Vec<(usize, &str)> = Vec::new(); // (bytes replaced, replacement)
+    match w {
+      1 => {
+        if cs.get(k + 1).is_some_and(|(_, c)| c.len_utf8() == 1) {
+          variants.push((2, "é"));
+        }
+      }
+      2 => variants.push((2, "ab")),
+      3 => {
+        variants.push((3, "éa"));
+        variants.push((3, "aé"));
+      }
+      _ => {
+        variants.push((4, "éü"));
+        variants.push((4, "a→"));
+      }
+    }
+    for (n, rep) in variants {
+      let t = format!("{}{}{}", &m[..*i], rep, &m[i + n..]);
+      debug_assert_eq!(t.len(), m.len());
+      if t != m {
+        others.push(t);
+      }
+    }
+  }
   for o in &others {
     for (ci, other) in chunkings(o).iter().enumerate() {
       obs.count("binary_observations", 1);
